@@ -167,6 +167,10 @@ func concRound(seed uint64, round int, workers int) (njobs int, diffs []string) 
 			// the owner's own operations: first one that records a validation error when the value's parser records them,
 			// then removals (they edit in place), then values, then the parameter list
 			v.SetHash("own frag")
+			if j.kind == 9 && j.parser%2 == 0 {
+				// the clone's own pairs edited in place, before anything rebuilds its list
+				v.SearchParams().Iterate(func(p *url.NameValuePair) { p.Value += "!" })
+			}
 			v.SetHash("")
 			v.SetSearch("")
 			v.SetUsername("")
@@ -177,6 +181,8 @@ func concRound(seed uint64, round int, workers int) (njobs int, diffs []string) 
 				v.SetPathname("/own/path")
 				v.SetHash("own")
 			case 1:
+				// a callback that edits the pairs it is handed in place (what the canonicalizer's repeated decoding does)
+				v.SearchParams().Iterate(func(p *url.NameValuePair) { p.Value += "!"; p.Name = "n" + p.Name })
 				v.SearchParams().Append("own", "1")
 				v.SearchParams().Sort()
 				v.SetHost("own.example:81")
